@@ -55,7 +55,7 @@ func c02Run(f []string) string {
 		return c02PlanRun(f)
 	case "named":
 		return c02NamedRun(f)
-	case "rx", "rxkey":
+	case "rx", "rxkey", "rxkeyp":
 		return c02RxRun(f)
 	case "dissectpipe":
 		return c02PoolRun(f)
